@@ -27,6 +27,7 @@ import (
 // configuration per identical settings, and a superseded file watcher stops.
 
 type c20Env struct {
+	twin    *sim.CA
 	sys     *sim.CA
 	cas     []*sim.CA
 	foreign *sim.CA
@@ -46,6 +47,21 @@ func c20Setup() *c20Env {
 		for i := 0; i < 3; i++ {
 			e.cas = append(e.cas, sim.NewCA(fmt.Sprintf("ca-%d", i)))
 		}
+		// a re-keyed twin of ca-0: same subject name, another key (what a CA looks like half way through its renewal)
+		e.twin = sim.NewCA("ca-0")
+		// all CA files have the same length (trailing newlines are not part of any certificate): a watcher that compares
+		// contents must not be helped by sizes
+		max := 0
+		for _, ca := range append(append([]*sim.CA{}, e.cas...), e.twin) {
+			if len(ca.PEM) > max {
+				max = len(ca.PEM)
+			}
+		}
+		for _, ca := range append(append([]*sim.CA{}, e.cas...), e.twin) {
+			for len(ca.PEM) < max {
+				ca.PEM = append(ca.PEM, '\n')
+			}
+		}
 		e.dir = filepath.Join(sim.ScratchDir(), fmt.Sprintf("c20-%d", os.Getpid()))
 		_ = os.MkdirAll(filepath.Join(e.dir, "emptycerts"), 0o755)
 		sysFile := filepath.Join(e.dir, "system-roots.pem")
@@ -56,6 +72,7 @@ func c20Setup() *c20Env {
 		for i, ca := range e.cas {
 			sim.RegisterTLSHost(fmt.Sprintf("ca%d.tls.test:443", i), ca.Leaf(fmt.Sprintf("ca%d.tls.test", i)))
 		}
+		sim.RegisterTLSHost("twin.tls.test:443", e.twin.Leaf("twin.tls.test"))
 		sim.RegisterTLSHost("foreign.tls.test:443", e.foreign.Leaf("foreign.tls.test"))
 		c20E = e
 	})
@@ -265,6 +282,38 @@ func c20Prop(c *sim.Case) {
 		s.build()
 		sets = append(sets, s)
 		c.Logf("setting %d: %v", i, s)
+	}
+	if sim.Weighted(c, "bundle", 5, 1) == 1 {
+		// a bundle of two CAs that carry the same subject name (the old and the re-keyed one): both are trusted, whatever
+		// the order, inline or from a file, and a server under an unrelated CA still is not
+		pems := [][]byte{e.cas[0].PEM, e.twin.PEM}
+		if sim.Bool(c, "bundle.order") {
+			pems[0], pems[1] = pems[1], pems[0]
+		}
+		bundle := append(append([]byte{}, pems[0]...), pems[1]...)
+		cfg := &oidcv1.OIDCConfig{}
+		if sim.Bool(c, "bundle.file") {
+			f := filepath.Join(e.dir, fmt.Sprintf("bundle-%d.pem", atomic.AddInt64(&c20File, 1)))
+			_ = os.WriteFile(f, bundle, 0o644)
+			cfg.TrustedCaConfig = &oidcv1.OIDCConfig_TrustedCertificateAuthorityFile{TrustedCertificateAuthorityFile: f}
+		} else {
+			cfg.TrustedCaConfig = &oidcv1.OIDCConfig_TrustedCertificateAuthority{TrustedCertificateAuthority: string(bundle)}
+		}
+		tc, err := pool.LoadTLSConfig(cfg)
+		if err != nil || tc == nil {
+			c.Violation("load-error", "LoadTLSConfig with a two-certificate bundle: %v", err)
+		}
+		pr := &tlsProbe{cfg: tc}
+		for srv, want := range map[string]bool{"ca0": true, "twin": true, "ca1": false, "foreign": false} {
+			if got := pr.try(srv + ".tls.test"); got != want {
+				sig := "trusts-too-much"
+				if want {
+					sig = "trusts-too-little"
+				}
+				c.Violation(sig+":bundle-of-same-named-cas", "bundle of ca-0 and its re-keyed twin: handshake with the %s server success=%v, want %v", srv, got, want)
+			}
+		}
+		c.Class("bundle-of-same-named-cas")
 	}
 	servers := []string{"sys", "ca0", "ca1", "ca2", "foreign"}
 	rotated, shookOld, shookNew := false, false, false
